@@ -84,6 +84,32 @@ let oc3 show (code, v) = match int_of_nat code with 0 -> "Ok " ^ show v | 1 -> "
 
 let c11_show ((code, s), k) = match int_of_nat code with 0 -> "Name " ^ hx_of_bytes s | 1 -> "ID " ^ dec_of_z k | _ -> "None"
 
+(* ---- type trees (encoding of harness/types.go) ---- *)
+let parse_ty (s : ostring) : ty =
+  let pos = ref 0 in
+  let next () = let c = s.[!pos] in incr pos; c in
+  let num () =
+    let st = !pos in
+    while s.[!pos] <> ';' do incr pos done;
+    let r = Stdlib.String.sub s st (!pos - st) in incr pos; r in
+  let flag () = next () = '1' in
+  let rec go () : ty =
+    match next () with
+    | 'v' -> TVoid | 'm' -> TMMX | 'l' -> TLabel | 'k' -> TToken | 'M' -> TMetadata
+    | 'i' -> TInt (n_of_dec (num ()))
+    | 'f' -> TFloat (match next () with '0' -> FHalf | '1' -> FFloat | '2' -> FDouble | '3' -> FX86_FP80 | '4' -> FFP128 | _ -> FPPC_FP128)
+    | 'p' -> let a = n_of_dec (num ()) in let e = go () in TPtr (e, a)
+    | 'V' -> let sc = flag () in let l = n_of_dec (num ()) in let e = go () in TVec (sc, l, e)
+    | 'A' -> let l = n_of_dec (num ()) in let e = go () in TArr (l, e)
+    | 'S' -> let pk = flag () in let n = int_of_string (num ()) in
+             let fs = List.init n (fun _ -> ()) |> List.map (fun () -> go ()) in TStruct (pk, fs)
+    | 'N' -> let h = num () in TNamed (bytes_of_hx ("x" ^ h))
+    | 'F' -> let va = flag () in let n = int_of_string (num ()) in
+             let r = go () in
+             let ps = List.init n (fun _ -> ()) |> List.map (fun () -> go ()) in TFunc (r, ps, va)
+    | c -> failwith ("bad type encoding at " ^ Stdlib.String.make 1 c)
+  in go ()
+
 (* ---- dispatch: kind -> inputs -> outputs ---- *)
 let eval (kind : ostring) (ins : ostring list) : ostring list =
   match kind, ins with
@@ -125,6 +151,8 @@ let eval (kind : ostring) (ins : ostring list) : ostring list =
   | "decode_type", [n] -> [match c11_dec_type (bytes_of_hx n) with Some s -> "Name " ^ hx_of_bytes s | None -> "None"]
   | "decode_comdat", [n] -> [match c11_dec_comdat (bytes_of_hx n) with Some s -> "Name " ^ hx_of_bytes s | None -> "None"]
   | ("decode_metadata" | "decode_attachment"), [n] -> [match c11_dec_metadata (bytes_of_hx n) with Some s -> "Name " ^ hx_of_bytes s | None -> "None"]
+  | "ty_string", [t] -> [hx_of_bytes (ty_string (parse_ty t))]
+  | "equal", [t; u] -> [b2s (equal_go (parse_ty t) (parse_ty u))]
   | _ -> failwith ("unknown kind " ^ kind)
 
 let () =
